@@ -66,7 +66,7 @@ def get_at(e, path):
     return e
 
 
-MUTS = ["permute", "dict-swap-values", "dict-swap-key-value", "kwarg-value", "fn", "ref", "nest", "literal", "drop"]
+MUTS = ["permute", "dict-swap-values", "dict-swap-key-value", "dict-key-type", "dict-key-type", "kwarg-value", "fn", "ref", "nest", "literal", "drop"]
 
 
 def mutate(expr, name, picks):
@@ -110,6 +110,20 @@ def mutate(expr, name, picks):
             if any(kk == val["lit"] for kk, _ in t[k]):
                 return None
             t[k][i] = [val["lit"], {"lit": key}]
+        return e
+    if name == "dict-key-type":
+        # a key of another type that prints the same: 1 <-> "1"
+        cands = [p for p in ps if any(k in get_at(e, p) and get_at(e, p)[k] for k in ("dict", "rawdict"))]
+        if not cands:
+            return None
+        t = get_at(e, cands[pick(len(cands))])
+        k = "dict" if "dict" in t else "rawdict"
+        i = pick(len(t[k]))
+        key = t[k][i][0]
+        new = str(key) if isinstance(key, int) else (int(key) if isinstance(key, str) and key.isdigit() else None)
+        if new is None or any(kk == new for kk, _ in t[k]):
+            return None
+        t[k][i][0] = new
         return e
     if name == "kwarg-value":
         cands = [p for p in ps if get_at(e, p).get("kwargs")]
@@ -247,7 +261,7 @@ def pair_case(draw):
     else:
         kind = draw(st.sampled_from(["list", "tuple", "dict"]))
         if kind == "dict":
-            expr = {"dict": [[k, draw(es)] for k in draw(st.lists(st.sampled_from(["La", "Lb", "Lc", 1, 2]), min_size=2, max_size=3, unique=True))]}
+            expr = {"dict": [[k, draw(es)] for k in draw(st.lists(st.sampled_from(["La", "Lb", "Lc", 1, 2, "1"]), min_size=2, max_size=3, unique=True))]}
         else:
             expr = {kind: draw(st.lists(es, min_size=2, max_size=4))}
         keyed = False
@@ -293,6 +307,13 @@ def enum_cases(tier):
             other = {"dict": [[k, vals[i]] for k, i in zip(keys, perm)]}
             yield {"a": base, "b": other, "keyed": False, "mut": "dict-swap-values", "seed": 3}
             yield {"a": {"call": "f2", "args": [], "kwargs": {"p": base}}, "b": {"call": "f2", "args": [], "kwargs": {"p": other}}, "keyed": True, "mut": "dict-swap-values", "seed": 4}
+    # keys of different types that print alike (1 / "1"; 2 / "2")
+    for ka, kb in [(1, "1"), ("1", 1), (2, "2"), (1, 1)]:
+        for v in leaves[:3]:
+            a_ = {"dict": [[ka, v], ["La", {"lit": 0}]]}
+            b_ = {"dict": [[kb, v], ["La", {"lit": 0}]]}
+            yield {"a": a_, "b": b_, "keyed": False, "mut": "none" if ka == kb and type(ka) is type(kb) else "dict-key-type", "seed": 7}
+            yield {"a": {"call": "f2", "args": [a_]}, "b": {"call": "f2", "args": [b_]}, "keyed": True, "mut": "none" if ka == kb and type(ka) is type(kb) else "dict-key-type", "seed": 8}
     for i in range(NKEYS):
         for j in range(NKEYS):
             yield {"a": {"ref": i}, "b": {"ref": j}, "keyed": True, "mut": "none" if i == j else "ref", "seed": 6}
